@@ -4,3 +4,4 @@ import AvroModel.Prim
 import AvroModel.Schema
 import AvroModel.Encode
 import AvroModel.Decode
+import AvroModel.Conforms
